@@ -145,6 +145,25 @@ Proof.
   exists [Th 0; Th 0; EDelete 1; Th 0; Th 0; Th 0; Th 0; Th 0]. eexists. split; vm_compute; reflexivity.
 Qed.
 
+(* "every call returns a Template that reflects file content no older than at the start of the call (under the freshness
+   rule)" is FALSE of the faithful model: a thread whose call starts only after the file was rewritten, a whole second or more
+   after the other thread compiled it, is served that compilation by the second look into the collection (L1), which has no
+   freshness test: known finding C16-F3 *)
+Theorem fresh_at_call_start_refuted :
+  exists pre post t e f,
+    ~ In (Th 1) pre /\
+    let s := crun_conc true (conc_init 5000 [(1, {| cf_ver := 1; cf_mtime := 2; cf_ok := true |})] [] [(0, 1); (1, 1)] 0)
+                       (pre ++ [ETick 3000; EWrite 1 5 true] ++ post) in
+    nget 1 (cthreads s) = Some t /\ th_pc t = Done (COk e) /\ nget 1 (cfiles s) = Some f /\
+    t_ver e <> cf_ver f /\ t_ctime e + 1000 <= cf_mtime f * 1000.
+Proof.
+  exists [Th 0; Th 0; Th 0; Th 0; Th 0], [Th 1; Th 1; Th 1; Th 0; Th 0; Th 1; Th 1; Th 1].
+  eexists. eexists. eexists. split.
+  - intros [H|[H|[H|[H|[H|[]]]]]]; discriminate H.
+  - cbn zeta. split; [vm_compute; reflexivity|]. split; [vm_compute; reflexivity|]. split; [vm_compute; reflexivity|].
+    split; vm_compute; [discriminate|discriminate].
+Qed.
+
 (* ---- simultaneous first requests for one URI compile it once ------------------------------ *)
 
 Lemma threads_update (Q : N -> thread -> Prop) ths i t' :
